@@ -382,7 +382,7 @@ func ruleC07Deleg(e *Env) {
 		return strings.ReplaceAll(s, a.canonTime("e"), "Time(e)")
 	}
 	check := func(fn *ssa.Function, construct, want string, args ...pred.Val) {
-		if fn == nil {
+		if fn == nil || c07Only != "" && c07Only != construct {
 			return
 		}
 		site := flow.FnName(fn)
@@ -487,8 +487,23 @@ func ruleC07Deleg(e *Env) {
 			e.S.Ok(rule, site, "Scan(other)", "returns an error wrapping ErrInvalidType without touching the receiver", e.Pos(scan))
 		}
 	}
+	if c07Only != "" {
+		return
+	}
 	// FromTime (function and method): zero time ⇒ zero date; otherwise components of t.Date() on t itself, minus one
 	ruleFromTime(e, rule, a)
+}
+
+// c07Only restricts ruleC07Deleg to one construct ("Scan") when the rule is filed under another property.
+var c07Only string
+
+// ruleScanPath files the Scan obligations of C07.deleg under `rule`: Scan is an input path of the date type — it takes
+// a time.Time and refuses everything else; a Scan that also takes text is a parser entry of its own (what it cuts,
+// trims or accepts is decided nowhere) and comes out undecided here.
+func ruleScanPath(e *Env, rule string) {
+	c07Only = "Scan"
+	e.As(map[string]string{"C07.deleg": rule}, func() { ruleC07Deleg(e) })
+	c07Only = ""
 }
 
 func (e *Env) timeType() types.Type {
